@@ -207,13 +207,16 @@ def canon_exc(e, _depth=0):
     if hasattr(e, "field_value"):
         d["field_value"] = canon(e.field_value)
     # InvalidFieldValue is raised from a bare `except:` around the field's
-    # unpacker, so its context *is* the inner error (README documents this).
-    # Contexts of other errors depend on which handler happened to be active
-    # and are not part of the compared outcome.
+    # unpacker, so its context is the inner error (README documents this).
+    # Only mashumaro's own errors are followed: whether a KeyError/ValueError
+    # from some enclosing handler is still attached as __context__ depends on
+    # which internal path ran and is not part of the compared outcome.
     if type(e).__name__ == "InvalidFieldValue" and _depth < 4:
         ctx = e.__cause__ or e.__context__
-        if ctx is not None:
+        if ctx is not None and (type(ctx).__module__ or "").startswith("mashumaro"):
             d["ctx"] = canon_exc(ctx, _depth + 1)
+        elif isinstance(ctx, (RecursionError, AttributeError, NameError)):
+            d["ctx"] = {"type": type(ctx).__name__}
     return d
 
 
